@@ -15,6 +15,8 @@ from vlib.core import HarnessError, SubCheck, Violation, known_buckets
 from pycoin.coins.SolutionChecker import ScriptError
 from pycoin.symbols.btc import network as BTC
 
+from gen import subproc
+
 PROPERTY = "C03"
 ASSUMPTIONS = [
     "oracles/refvm.py is a transliteration of Bitcoin Core's pre-taproot interpreter.cpp/pubkey.cpp; it reproduces the "
@@ -237,6 +239,9 @@ SUBCHECKS = [
              rule="grammar-generated programs (operands at numeric/push boundaries, all opcodes, nested/unbalanced conditionals, limit patterns, signatures by a key ring with DER/hash-type/key-form variants) x initial stack x flag set x tx context x sigversion: BitcoinVM.eval_script vs reference EvalScript (verdict, and stack on success); non-trivial = reference executed >= 1 non-push opcode"),
     SubCheck("spend", o_spend, strategy=G.spend_cases, budget=(8000, 300000), nontrivial=nt,
              rule="spends of bare/P2SH/P2WSH/P2SH-P2WSH/P2WPKH/P2SH-P2WPKH and raw scriptPubKeys, signature templates valid by construction then perturbed, witness/scriptSig/program mutations: Tx.check_solution vs reference VerifyScript (verdict); non-trivial = reference executed >= 1 non-push opcode"),
+    SubCheck("spend_python_O", subproc.optimized_variant("checks.c03_script", "o_spend"), strategy=G.spend_cases, budget=(800, 30000), nontrivial=nt,
+             rule="the spend cases evaluated in a child interpreter started with PYTHONOPTIMIZE=1 (python -O: assert statements are "
+                  "compiled away, so validation written as an assert vanishes; the child asserts that mode)"),
 ]
 
 # thorough tier: coverage-guided campaigns (runs per worker, 4 workers each)
